@@ -161,8 +161,29 @@ def validate(traces, dev, label, chunk=1500, parallel=4):
     return verdicts, drifts, results
 
 
-def judge(chk, runs, verdicts, drifts):
+REAL_DEVS = ("dirty_evicted_without_writeback", "miss_fill_overwrites_newer_write",
+             "flush_clears_dirty_of_concurrent_write", "wb_delete_exposes_stale_backing")
+
+
+def name_unexplained(runs, verdicts, known_dev):
+    """Contract failures the open deviations do not explain: judge those traces once more with every deviation the
+    code ever had (fixed ones included), so that a defect that reappears is reported under its own key."""
+    if set(REAL_DEVS) <= set(known_dev):
+        return
+    bad = [tid for tid, (v, pos, taint) in verdicts.items() if v.startswith("PROP:") and not taint]
+    if not bad:
+        return
+    v2, _, _ = validate([runs.traces[tid - 1] for tid in bad], sorted(set(REAL_DEVS) | set(known_dev)),
+                        "C16_trace_name", parallel=1, chunk=len(bad))
+    for tid in bad:
+        if tid in v2 and v2[tid][0] == verdicts[tid][0] and v2[tid][2]:
+            verdicts[tid] = (verdicts[tid][0], verdicts[tid][1], v2[tid][2])
+
+
+def judge(chk, runs, verdicts, drifts, known_dev=None):
     """Turn trace verdicts into violations / known findings / drift."""
+    if known_dev is not None:
+        name_unexplained(runs, verdicts, known_dev)
     for tid, (v, pos, taint) in sorted(verdicts.items()):
         m = runs.meta[tid]
         if v.startswith("PROP:"):
@@ -258,7 +279,7 @@ def replay_case(chk, data):
         runs = Runs(chk)
         runs.execute(data["cfg"], data["prog"], "replay")
         verdicts, drifts, _ = validate(runs.traces, as_code_dev(), "C16_replay", parallel=1)
-        judge(chk, runs, verdicts, drifts)
+        judge(chk, runs, verdicts, drifts, as_code_dev())
     elif fam == "policy":
         name, held = data["policy"], set()
         p = pol9.make_policy(name, clock=pol9.Clock(), scripted=False, seed=0)
@@ -308,7 +329,7 @@ def run(tier, seed, replay=None):
         return replay_case(chk, json.loads(open(replay).read())["replay"])
 
     quick = tier == "quick"
-    pool = ThreadPoolExecutor(max_workers=6 if quick else 8)
+    pool = ThreadPoolExecutor(max_workers=8)
     jobs = {}
     # -- 1. model checking -------------------------------------------------
     if quick:
@@ -382,6 +403,10 @@ def run(tier, seed, replay=None):
         pc_runs.execute(cfg, prog, "random")
     _t(chk, f"random executions done: {len(runs.traces)} + soft-ttl {len(soft_runs.traces)} + multi-tier "
             f"{len(tier_runs.traces)} + page-cache {len(pc_runs.traces)}")
+    n_early = len(runs.traces)
+    nb = 3 if quick else 8
+    early_val = pool.submit(validate, list(runs.traces), known_dev, "C16_trace_a",
+                            (n_early + nb - 1) // nb, nb)
     # -- collect model checking -------------------------------------------
     for name, fut in jobs.items():
         res = fut.result()
@@ -406,6 +431,12 @@ def run(tier, seed, replay=None):
             chk.add_tlc("PoliciesMC (nine policies, strict call sequences, 3 keys)", res)
             chk.require(res.ok, f"PoliciesMC violates {res.violated}")
 
+    soft.collect(chk, soft_jobs, soft_runs)
+    soft_val = pool.submit(soft.validate, soft_runs.traces, "C16_st_trace", soft_dev)
+    pagec.collect(chk, pc_jobs, pc_runs)
+    pc_val = pool.submit(pagec.validate, pc_runs.traces, "C16_pc_trace", pc_dev)
+    tiered.collect(chk, tier_jobs, tier_runs)
+    tier_val = pool.submit(tiered.validate, tier_runs.traces, "C16_mt_trace", tier_dev)
     _t(chk, "TLC model checking collected")
     # -- 2a. policies: tour every edge of the state graph on the real objects
     g = tlc.parse_dot(pol_dot)
@@ -487,16 +518,13 @@ def run(tier, seed, replay=None):
     chk.extra["state_checked_replays"] = {"total": state_checked, "matched": matched}
 
     _t(chk, f"model programs done: {n_model}")
-    soft.collect(chk, soft_jobs, soft_runs)
-    soft_val = pool.submit(soft.validate, soft_runs.traces, "C16_st_trace", soft_dev)
-    pagec.collect(chk, pc_jobs, pc_runs)
-    pc_val = pool.submit(pagec.validate, pc_runs.traces, "C16_pc_trace", pc_dev)
-    tiered.collect(chk, tier_jobs, tier_runs)
-    tier_val = pool.submit(tiered.validate, tier_runs.traces, "C16_mt_trace", tier_dev)
     # -- 3b. validate all recorded executions with the TLA+ trace spec -------
-    nb = 3 if quick else 8
-    verdicts, drifts, results = validate(runs.traces, known_dev, "C16_trace",
-                                         chunk=(len(runs.traces) + nb - 1) // nb, parallel=nb)
+    late = runs.traces[n_early:]
+    verdicts, drifts, results = validate(late, known_dev, "C16_trace_b", (len(late) + 1) // 2 or 1, 2)
+    v1, d1, r1 = early_val.result()
+    verdicts.update(v1)
+    drifts.update(d1)
+    results = r1 + results
     for r in results:
         chk.add_tlc(f"CacheTrace batch Dev={known_dev}", r, note="trace validation, one state per recorded segment")
     sv, sd, sres = soft_val.result()
@@ -512,7 +540,7 @@ def run(tier, seed, replay=None):
     chk.extra["page_cache_runs_that_raised_KeyError"] = pc_runs.raised
     chk.impl_traces = len(runs.traces) + len(soft_runs.traces) + len(tier_runs.traces) + len(pc_runs.traces)
     _t(chk, "trace validation done")
-    judge(chk, runs, verdicts, drifts)
+    judge(chk, runs, verdicts, drifts, known_dev)
     soft.judge(chk, soft_runs, sv, sd)
     chk.extra["soft_ttl_verdicts"] = {v: sum(1 for x in sv.values() if x[0] == v) for v in {x[0] for x in sv.values()}}
     by = {}
